@@ -204,6 +204,10 @@ func c04TypedTok(typ string) string {
 		return false
 	}
 	switch {
+	case has("stream"):
+		return "e:stream"
+	case has("hash"):
+		return "e:hash"
 	case has("symbol", "class", "function", "lambda", "designator", "flavor", "name"):
 		return "y:" + c04ProbeName
 	case has("string"):
@@ -277,9 +281,14 @@ func c04TokLisp(t string) string {
 		return `#\` + t[2:]
 	case t == "l:":
 		return "'(1 2)"
+	case strings.HasPrefix(t, "e:"):
+		return c04ExprToks[t]
 	}
 	return t
 }
+
+// tokens that stand for a form evaluated at the call (fresh object per call)
+var c04ExprToks = map[string]string{"e:stream": "(make-string-output-stream)", "e:hash": "(make-hash-table)"}
 
 // c04TokForm: the (unevaluated) argument form of a token.
 func c04TokForm(t string) slip.Object {
@@ -302,6 +311,10 @@ func c04TokForm(t string) slip.Object {
 		return slip.Character([]rune(t[2:])[0])
 	case t == "l:":
 		return quote(slip.List{slip.Fixnum(1), slip.Fixnum(2)})
+	case strings.HasPrefix(t, "e:"):
+		if code := slip.ReadString(c04ExprToks[t], slip.NewScope()); len(code) == 1 {
+			return code[0]
+		}
 	}
 	return nil
 }
